@@ -145,7 +145,7 @@ func asFieldAddr(v ssa.Value) (fieldRef, bool) {
 	if st == nil {
 		return fieldRef{}, false
 	}
-	return fieldRef{Struct: namedOf(fa.X.Type()), SName: typeName(fa.X.Type()), Field: st.Field(fa.Field).Name(), Base: fa.X}, true
+	return canonRef(fieldRef{Struct: namedOf(fa.X.Type()), SName: typeName(fa.X.Type()), Field: st.Field(fa.Field).Name(), Base: fa.X}), true
 }
 
 // asFieldLoad: v is the value base.f (load through FieldAddr, or Field of a struct value)
@@ -180,7 +180,7 @@ func asFieldLoad(v ssa.Value) (fieldRef, bool) {
 		if st == nil {
 			return fieldRef{}, false
 		}
-		return fieldRef{Struct: namedOf(x.X.Type()), SName: typeName(x.X.Type()), Field: st.Field(x.Field).Name(), Base: x.X}, true
+		return canonRef(fieldRef{Struct: namedOf(x.X.Type()), SName: typeName(x.X.Type()), Field: st.Field(x.Field).Name(), Base: x.X}), true
 	}
 	return fieldRef{}, false
 }
@@ -240,11 +240,17 @@ func accessPath(v ssa.Value) string {
 		if st == nil {
 			return accessPath(x.X) + ".?"
 		}
+		if flattenFields && st.Field(x.Field).Embedded() && canonInner(st.Field(x.Field).Type()) {
+			return accessPath(x.X) // promoted fields are named as fields of the outer struct
+		}
 		return accessPath(x.X) + "." + st.Field(x.Field).Name()
 	case *ssa.Field:
 		st := structOf(x.X.Type())
 		if st == nil {
 			return accessPath(x.X) + ".?"
+		}
+		if flattenFields && st.Field(x.Field).Embedded() && canonInner(st.Field(x.Field).Type()) {
+			return accessPath(x.X)
 		}
 		return accessPath(x.X) + "." + st.Field(x.Field).Name()
 	case *ssa.UnOp:
@@ -704,4 +710,136 @@ func freshCopyKind(v ssa.Value, src func(ssa.Value) bool) (string, *ssa.MakeSlic
 		}
 	}
 	return "", nil
+}
+
+// ---- flattened field names -----------------------------------------------------------------------------------
+// A rule set may ask (flattenFields) that fields of an unexported struct type which is used in exactly one place -
+// as an embedded or plain value field of one other struct of its package - are named as fields of that outer
+// struct: promoted names for an embedded struct ("head" of an embedded ring), dotted names otherwise
+// ("limit.count"). Grouping the fields of a type into a sub-struct then does not change what a role is called.
+
+var flattenFields bool
+
+type fieldOwner struct {
+	Outer    string // outer struct type name (pkg.T)
+	Field    string // name of the field of the outer struct
+	Embedded bool
+}
+
+var canonOwners map[string][]fieldOwner
+var canonFor *Prog
+
+func canonBuild() {
+	if curProg == nil || canonFor == curProg {
+		return
+	}
+	canonFor = curProg
+	canonOwners = map[string][]fieldOwner{}
+	for key, sp := range curProg.SPkgs {
+		_ = key
+		for _, m := range sp.Members {
+			t, ok := m.(*ssa.Type)
+			if !ok {
+				continue
+			}
+			named, ok := t.Type().(*types.Named)
+			if !ok {
+				continue
+			}
+			st, ok := named.Underlying().(*types.Struct)
+			if !ok {
+				continue
+			}
+			for k := 0; k < st.NumFields(); k++ {
+				f := st.Field(k)
+				in, ok := f.Type().(*types.Named)
+				if !ok || in.Obj().Exported() || in.Obj().Pkg() != named.Obj().Pkg() {
+					continue
+				}
+				if _, isSt := in.Underlying().(*types.Struct); !isSt {
+					continue
+				}
+				canonOwners[typeName(in)] = append(canonOwners[typeName(in)], fieldOwner{typeName(named), f.Name(), f.Embedded()})
+			}
+		}
+	}
+	// a type that is also used behind a pointer, in a slice, map, channel or as a parameter is not canonicalised:
+	// conservatively require that it has methods only or is referenced nowhere else - approximated by "exactly one owner"
+}
+
+// flattenPrefer: when an inner struct type is shared by several outer types (one "window" embedded in two
+// detectors), the rule set analysing one of them names it here and the inner fields are attributed to it.
+var flattenPrefer string
+
+func canonOwnerOf(inner string) (fieldOwner, bool) {
+	canonBuild()
+	ow := canonOwners[inner]
+	if len(ow) == 1 {
+		return ow[0], true
+	}
+	var pick *fieldOwner
+	for k := range ow {
+		if ow[k].Outer == flattenPrefer {
+			if pick != nil {
+				return fieldOwner{}, false
+			}
+			pick = &ow[k]
+		}
+	}
+	if pick != nil {
+		return *pick, true
+	}
+	return fieldOwner{}, false
+}
+
+// canonInner: t is an unexported struct type whose fields are attributed to an owner.
+func canonInner(t types.Type) bool {
+	_, ok := canonOwnerOf(typeName(t))
+	return ok
+}
+
+func canonRef(fr fieldRef) fieldRef {
+	if !flattenFields {
+		return fr
+	}
+	canonBuild()
+	for i := 0; i < 4; i++ {
+		ow, ok := canonOwnerOf(fr.SName)
+		if !ok {
+			break
+		}
+		if !ow.Embedded {
+			fr.Field = ow.Field + "." + fr.Field
+		}
+		fr.SName = ow.Outer
+	}
+	return fr
+}
+
+// flatField is one (possibly nested) field of a struct under the flattened naming.
+type flatField struct {
+	Name string
+	Type types.Type
+}
+
+// flatStructFields lists the fields of st with the fields of canonicalised inner structs expanded in place.
+func flatStructFields(st *types.Struct, prefix string, depth int) []flatField {
+	var out []flatField
+	for i := 0; i < st.NumFields(); i++ {
+		f := st.Field(i)
+		if flattenFields && depth < 3 {
+			if in, ok := f.Type().(*types.Named); ok && canonInner(in) {
+				if ist, ok := in.Underlying().(*types.Struct); ok {
+					p := prefix
+					if !f.Embedded() {
+						p = prefix + f.Name() + "."
+					}
+					out = append(out, flatStructFields(ist, p, depth+1)...)
+					continue
+				}
+			}
+		}
+		out = append(out, flatField{prefix + f.Name(), f.Type()})
+	}
+	return out
 }
